@@ -17,6 +17,7 @@ package document
 
 import (
 	"fmt"
+	"math"
 
 	"github.com/codenotary/immudb/embedded/sql"
 	"github.com/codenotary/immudb/embedded/store"
@@ -56,7 +57,12 @@ var structValueToSqlValue = func(value *structpb.Value, sqlType sql.SQLValueType
 		if !ok {
 			return nil, fmt.Errorf("%w: expecting value of type %s", ErrUnexpectedValue, sqlType)
 		}
-		return sql.NewInteger(int64(value.GetNumberValue())), nil
+		num := value.GetNumberValue()
+		// only numbers with an exact int64 representation are accepted (no silent truncation or overflow)
+		if num != math.Trunc(num) || num < -9223372036854775808.0 || num >= 9223372036854775808.0 {
+			return nil, fmt.Errorf("%w: expecting value of type %s but got %v", ErrUnexpectedValue, sqlType, num)
+		}
+		return sql.NewInteger(int64(num)), nil
 	case sql.BLOBType:
 		_, ok := value.GetKind().(*structpb.Value_StringValue)
 		if !ok {
